@@ -669,24 +669,19 @@ mod proofs_s {
     hi3!(i2_recv_shared_bcast_n2_b1, i_try_recv, BCast<Pay>, 2, 1, false, 1, true);
     hi3!(i2_recv_shared_mpmc_n2_b1, i_try_recv, MPMC<Pay>, 2, 1, true, 1, true);
     hi3!(i2_recv_churn_bcast_n2_b1, i_try_recv_churn, BCast<Pay>, 2, 1, false, 1);
-    hi3!(i5_recv_args_shared_bcast_n2_b1, i_recv_wait_args, BCast<Pay>, 2, 1, false, 1, true, false);
     hi3!(i5_recv_args_shared_mpmc_n2_b1, i_recv_wait_args, MPMC<Pay>, 2, 1, true, 1, true, false);
     // ---- layer I: real operations under the protocol environment
     hi!(i1_send_multi_bcast_n2_b2, i_try_send, BCast<Pay>, 2, 1, false, SendKind::Multi, 2);
-    hi!(i1_send_multi_bcast_n2_b3, i_try_send, BCast<Pay>, 2, 2, false, SendKind::Multi, 3);
     hi!(i1_send_multi_mpmc_n2_b2, i_try_send, MPMC<Pay>, 2, 1, true, SendKind::Multi, 2);
     hi!(i1_send_single_bcast_n2_b2, i_try_send, BCast<Pay>, 2, 1, false, SendKind::Single, 2);
     hi!(i1_send_single_mpmc_n2_b2, i_try_send, MPMC<Pay>, 2, 1, true, SendKind::Single, 2);
     hi!(i1_send_multi_bcast_n1_b2, i_try_send, BCast<Pay>, 1, 1, false, SendKind::Multi, 2);
-    hi!(i1_send_multi_bcast_n4_b3, i_try_send, BCast<Pay>, 4, 2, false, SendKind::Multi, 3);
     hi!(i2_recv_shared_bcast_n2_b2, i_try_recv, BCast<Pay>, 2, 1, false, 2, true);
-    hi!(i2_recv_shared_bcast_n2_b3, i_try_recv, BCast<Pay>, 2, 2, false, 3, true);
     hi!(i2_recv_shared_mpmc_n2_b2, i_try_recv, MPMC<Pay>, 2, 1, true, 2, true);
     hi!(i2_recv_shared_mpmc_n2_b3, i_try_recv, MPMC<Pay>, 2, 1, true, 3, true);
     hi!(i2_recv_sole_bcast_n2_b2, i_try_recv, BCast<Pay>, 2, 1, false, 2, false);
     hi!(i2_recv_sole_mpmc_n2_b2, i_try_recv, MPMC<Pay>, 2, 1, true, 2, false);
     hi!(i2_recv_shared_bcast_n1_b2, i_try_recv, BCast<Pay>, 1, 1, false, 2, true);
-    hi!(i2_recv_shared_bcast_n4_b3, i_try_recv, BCast<Pay>, 4, 2, false, 3, true);
     hi!(i7_view_bcast_n2_b2, i_try_recv_view, BCast<Pay>, 2, 1, false, 2);
     hi!(i7_view_mpmc_n2_b2, i_try_recv_view, MPMC<Pay>, 2, 1, true, 2);
     hi!(i7_view_bcast_n1_b3, i_try_recv_view, BCast<Pay>, 1, 2, false, 3);
@@ -744,8 +739,6 @@ mod proofs_s {
     hi!(i12_remove_consumer_n2, i_consumer_count, BCast<Pay>, 2, true);
     hi!(i12_dup_consumer_n2, i_consumer_count, BCast<Pay>, 2, false);
     // ---- I5: wait arguments under interference
-    hi!(i5_recv_args_sole_bcast_n2_b2, i_recv_wait_args, BCast<Pay>, 2, 1, false, 2, false, false);
-    hi!(i5_recv_args_shared_bcast_n2_b2, i_recv_wait_args, BCast<Pay>, 2, 1, false, 2, true, false);
     hi!(i5_recv_args_shared_mpmc_n2_b2, i_recv_wait_args, MPMC<Pay>, 2, 1, true, 2, true, false);
     hi!(i5_recv_view_args_bcast_n2_b2, i_recv_wait_args, BCast<Pay>, 2, 1, false, 2, false, true);
     // ---- T: bounded own steps from frozen-others states
